@@ -13,6 +13,7 @@ import math
 from ..oracles import c04_hashtable as HT
 from ..oracles import c07_defs as DEF
 from . import _hashlm as LM
+from .. import layout as LY
 
 ID = "C07"
 LEVEL = "exploration"
@@ -351,6 +352,8 @@ def _exec_slp_tensor(case, mon):
     T = shape[dim]
     logits = torch.tensor(case["logits"], dtype=torch.float32).view(*shape, V)
     hyp = torch.tensor(case["hyp"], dtype=torch.long).view(*shape)
+    _lay = case.get("layout") or LY.pick(logits.numel(), logits.dim(), V)
+    logits, hyp = LY.relayout(logits, _lay), LY.relayout(hyp, _lay)
     mon.cls("slp_dim_negative" if case["dim"] < 0 else "slp_dim_nonneg", "slp_%dd" % nd,
             "slp_eos_unset" if eos is None else ("slp_eos_in_vocab" if 0 <= eos < V else "slp_eos_out_of_vocab"))
     # zero-size sequence dimension with eos: the first-eos search raises (DESIGN: out-of-domain observation)
@@ -716,6 +719,7 @@ def _exec_greedy(case, mon):
             x[lens[n]:, n] = fill
         mon.cls("greedy_hostile_padding_frames")
     inp = x.transpose(0, 1).contiguous() if case["batch_first"] else x
+    inp = LY.relayout(inp, case.get("layout") or LY.pick(T, N, V))
     lt = None if lens is None else torch.tensor(lens, dtype=torch.long)
     mon.cls("greedy_blank_negative" if blank < 0 else "greedy_blank_nonneg",
             "greedy_probs" if is_probs else "greedy_logits",
